@@ -991,7 +991,7 @@ void generate_path_operations(StringBuilder *sb) {
     sb_append(sb, "            if (count > 0 && strcmp(parts[count - 1], \"..\") != 0) {\n");
     sb_append(sb, "                count--;\n");
     sb_append(sb, "            } else if (!abs) {\n");
-    sb_append(sb, "                parts[count++] = tok;\n");
+    sb_append(sb, "                if (count < 512) parts[count++] = tok;\n");
     sb_append(sb, "            }\n");
     sb_append(sb, "        } else {\n");
     sb_append(sb, "            if (count < 512) parts[count++] = tok;\n");
